@@ -17,6 +17,12 @@ virtual loop to quiescence):
   <t>:e                                             task t returns
   <t>:k                                             task t is cancelled from outside (Task.cancel()) while it is suspended in a
                                                     body or blocked in a scope exit: CancelledError unwinds all its blocks
+  <t>:G                                             the gate of the scope task t is entering opens (see kind g)
+  <t>:T                                             task t tries ctx.scope(...) in a thread that has no event loop, in a copy of its
+                                                    context (RuntimeError expected), and goes on
+block kinds r / g (with `o` only) = async scope with a disposable whose __aenter__ raises / waits on a gate: the enter
+fails (r; or g when the task is cancelled meanwhile) and is rolled back - the scope counts as left at once - or completes
+when the gate opens (g + G).
 block kind `d` = async scope with a disposable whose __aexit__ raises (unless the exit reason is a cancellation):
 the caller catches the cleanup error and continues; the scope's ctx.spawn members are cancelled by the task group.
 strings: `_` stands for a space, no `:` `,` or blank inside; args: comma separated i<nat> / s<chars>.
@@ -60,6 +66,7 @@ class Ev:
     dt: int = 0
     is_async: bool = False
     disp: bool = False
+    enter_mode: str = ""          # "" normal, "r" disposable raises in __aenter__, "g" waits on a gate
     cb: str = "n"
     name: str = "n"
     logger: int | None = None
@@ -104,9 +111,11 @@ def parse_tok(tok: str) -> Ev | None:
         return None
     t, op, rest = int(f[0]), f[1], f[2:]
     if op in ("o", "m"):
-        if len(rest) not in (2, 5) or rest[0] not in ("s", "a", "d") or rest[1] not in ("n", "s", "a"):
+        kinds = ("s", "a", "d", "r", "g") if op == "o" else ("s", "a", "d")
+        if len(rest) not in (2, 5) or rest[0] not in kinds or rest[1] not in ("n", "s", "a"):
             return None
-        ev = Ev("open" if op == "o" else "make", t=t, is_async=rest[0] in ("a", "d"), disp=rest[0] == "d", cb=rest[1])
+        ev = Ev("open" if op == "o" else "make", t=t, is_async=rest[0] != "s", disp=rest[0] == "d",
+                enter_mode=rest[0] if rest[0] in ("r", "g") else "", cb=rest[1])
         if len(rest) == 5:
             ev.name = dec(rest[2])
             if rest[3] != "":
@@ -137,6 +146,10 @@ def parse_tok(tok: str) -> Ev | None:
         return Ev("end", t=t)
     if op == "k" and not rest:
         return Ev("cancel", t=t)
+    if op == "G" and not rest:
+        return Ev("release", t=t)
+    if op == "T" and not rest:
+        return Ev("thread", t=t)
     return None
 
 
@@ -187,6 +200,7 @@ class STask:
     alive: bool = True
     blocked: bool = False
     member_of: int | None = None
+    entering: int | None = None
 
 
 class Replay:
@@ -234,6 +248,9 @@ class Replay:
         """CancelledError unwinds task t: every block is left (an async block first cancels and joins its
         ctx.spawn members), the task ends"""
         tk = self.tasks[t]
+        if tk.entering is not None:               # cancelled inside __aenter__: rolled back, the scope counts as left
+            self.scopes[tk.entering].ev_entered = self.scopes[tk.entering].ev_left = self.k
+            tk.entering = None
         while tk.frames:
             sid = tk.frames[-1]
             if self.scopes[sid].is_async:
@@ -251,7 +268,7 @@ class Replay:
     def _release_owner(self, g: int | None) -> None:
         if g is not None and not self.live_members(g):
             for o, otk in enumerate(self.tasks):
-                if otk.blocked and otk.frames and otk.frames[-1] == g:
+                if otk.blocked and otk.entering is None and otk.frames and otk.frames[-1] == g:
                     self._finish_exit(o)
                     break
 
@@ -269,12 +286,28 @@ class Replay:
             self._kill(t)
             self._release_owner(self.tasks[t].member_of)
             return True
+        if ev.kind == "release":
+            if t >= len(self.tasks) or not self.tasks[t].alive or self.tasks[t].entering is None:
+                self.ok = False
+                return False
+            tk = self.tasks[t]
+            sid, tk.entering, tk.blocked = tk.entering, None, False
+            self._enter(t, sid)
+            return True
         if not self.can_act(t):
             self.ok = False
             return False
         tk = self.tasks[t]
         self.innermost_at[self.k] = self.cur(t)
-        if ev.kind == "open":
+        if ev.kind == "thread":
+            return True
+        if ev.kind == "open" and ev.enter_mode == "r":
+            sid = self._construct(ev)
+            self.scopes[sid].ev_entered = self.scopes[sid].ev_left = self.k       # rolled back at once
+        elif ev.kind == "open" and ev.enter_mode == "g":
+            tk.entering = self._construct(ev)
+            tk.blocked = True
+        elif ev.kind == "open":
             self._enter(t, self._construct(ev))
         elif ev.kind == "make":
             tk.pending = self._construct(ev)
@@ -318,7 +351,7 @@ class Replay:
 
     def clone(self) -> "Replay":
         r = Replay.__new__(Replay)
-        r.tasks = [STask(tk.inherited, tk.inh_group, list(tk.frames), tk.pending, tk.alive, tk.blocked, tk.member_of)
+        r.tasks = [STask(tk.inherited, tk.inh_group, list(tk.frames), tk.pending, tk.alive, tk.blocked, tk.member_of, tk.entering)
                    for tk in self.tasks]
         r.scopes = [SScope(**s.__dict__) for s in self.scopes]
         r.ok, r.k, r.innermost_at = self.ok, self.k, dict(self.innermost_at)
@@ -363,8 +396,8 @@ def normalize(case: str) -> str | None:
         progress = False
         for t in range(len(r.tasks) - 1, -1, -1):
             tk = r.tasks[t]
-            while tk.alive and not tk.blocked:
-                tok = f"{t}:x" if tk.frames else f"{t}:e"
+            while tk.alive and (not tk.blocked or tk.entering is not None):
+                tok = f"{t}:G" if tk.entering is not None else f"{t}:x" if tk.frames else f"{t}:e"
                 r.step(parse_tok(tok))
                 if not r.ok:
                     return None
@@ -400,6 +433,8 @@ def sample_events(rng, max_scopes: int, degenerate: bool = False, extra=None, op
             for t, tk in enumerate(r.tasks):
                 if tk.alive and (tk.frames or tk.blocked):
                     opts.append((faults * (2.0 if tk.blocked else 0.6), f"{t}:k"))
+                if tk.alive and tk.entering is not None:
+                    opts.append((faults * 2.0, f"{t}:G"))
         if not live and not opts:
             break
         for t in live:
@@ -409,9 +444,12 @@ def sample_events(rng, max_scopes: int, degenerate: bool = False, extra=None, op
                 if degenerate:
                     opts.append((1.2, mk(rng, t, True)))
                 if faults:
-                    f = mk(rng, t, False).split(":")
-                    f[2] = "d"
-                    opts.append((2.0 * faults, ":".join(f)))
+                    for kind, w in (("d", 2.0), ("r", 0.8), ("g", 1.2)):
+                        f = mk(rng, t, False).split(":")
+                        f[2] = kind
+                        opts.append((w * faults, ":".join(f)))
+            if faults and r.cur(t) is not None:
+                opts.append((0.5 * faults, f"{t}:T"))
             if tk.pending is not None:
                 opts.append((1.5, f"{t}:n"))
             if tk.frames:
@@ -456,6 +494,30 @@ class MergeBoom(ValueError):
 
 class DispBoom(Exception):
     pass
+
+
+class EnterBoom(Exception):
+    pass
+
+
+class FailingEnter:
+    async def __aenter__(self):
+        raise EnterBoom("cannot enter")
+
+    async def __aexit__(self, et, ev, tb):
+        return None
+
+
+class GatedEnter:
+    def __init__(self, gate):
+        self.gate = gate
+
+    async def __aenter__(self):
+        await self.gate
+        return None
+
+    async def __aexit__(self, et, ev, tb):
+        return None
 
 
 class FailingCleanup:
@@ -573,6 +635,7 @@ class Run:
         self.captured: list = []
         self.loggers: dict[int, logging.Logger] = {}
         self.desync: str | None = None
+        self.gates: dict[int, asyncio.Future] = {}
 
     def note(self, s: str) -> None:
         self.notes.setdefault(self.k, []).append(s)
@@ -619,6 +682,11 @@ class Run:
             kw["completion"] = acb
         if ev.disp:
             kw["disposables"] = [FailingCleanup()]
+        elif ev.enter_mode == "r":
+            kw["disposables"] = [FailingEnter()]
+        elif ev.enter_mode == "g":
+            self.gates[sid] = asyncio.get_running_loop().create_future()
+            kw["disposables"] = [GatedEnter(self.gates[sid])]
         return sid, ctx.scope(ev.name, **kw)
 
 
@@ -670,8 +738,8 @@ class Puppet:
         except Boom as exc:
             if exc is not state["boom"]:
                 self.run.note("raised:other-Boom")
-        except DispBoom:
-            pass                                  # the cleanup error surfaces; the caller catches it and continues
+        except (DispBoom, EnterBoom):
+            pass                                  # the cleanup / enter error surfaces; the caller catches it and continues
         except asyncio.CancelledError:
             raise
         except BaseException as exc:  # noqa: BLE001
@@ -687,7 +755,27 @@ class Puppet:
             k = ev.kind
             if k == "open":
                 sid, sc = run.make_scope(ev)
+                self.entering_sid = sid
                 await self.block(sid, sc, ev.is_async)
+            elif k == "thread":
+                import contextvars
+                import threading
+
+                seen: list[str] = []
+
+                def attempt():
+                    try:
+                        ctx.scope("thr")
+                        seen.append("constructed")
+                    except BaseException as exc:  # noqa: BLE001
+                        seen.append(type(exc).__name__)
+
+                snapshot = contextvars.copy_context()
+                th = threading.Thread(target=lambda: snapshot.run(attempt))
+                th.start()
+                th.join()
+                if seen != ["RuntimeError"]:
+                    run.note(f"thread-scope:{','.join(seen)}")
             elif k == "make":
                 sid, sc = run.make_scope(ev)
                 self.pending = (sid, sc, ev.is_async)
@@ -775,6 +863,14 @@ def run_case(case: str):
             pup = run.puppets[ev.t] if ev.t < len(run.puppets) else None
             if ev.kind == "cancel" and pup is not None and not pup.done:
                 pup.task.cancel()
+                loop.quiesce()
+                continue
+            if ev.kind == "release" and pup is not None and not pup.done:
+                gate = run.gates.get(getattr(pup, "entering_sid", -1))
+                if gate is None or gate.done():
+                    run.desync = f"desync@{run.k}"
+                    break
+                gate.set_result(None)
                 loop.quiesce()
                 continue
             if pup is None or pup.waiting is None or pup.waiting.done():
